@@ -137,7 +137,7 @@ func applyTerm(c *core.Ctx, pkg, cname, typ string) {
 	why := fmt.Sprintf("Apply performs %d calls", len(cs))
 	if ok {
 		st := cs[0]
-		ok = st.Callee != nil && paramOf(st.Callee, fn, 0) && len(st.A) == len(fn.Params)-1
+		ok = st.Callee != nil && (paramOf(st.Callee, fn, 0) || onlyFuncFieldOf(st.Callee, fn)) && len(st.A) == len(fn.Params)-1
 		why = "the callee is not the wrapped function or the argument count differs"
 		for i := 0; ok && i < len(st.A); i++ {
 			if !paramOf(st.A[i], fn, i+1) {
@@ -162,6 +162,62 @@ func applyTerm(c *core.Ctx, pkg, cname, typ string) {
 	c.Check(ok, "apply-term", cname, fn.Pos(), "Apply(args...) = f(args...)", "%s", why)
 }
 
+// wrappedFuncOf: the function value an implementation value carries - the value itself (a function type with
+// methods) or the single function-typed field of a struct literal (a struct holding the function next to a strategy).
+func wrappedFuncOf(t *ir.Term) *ir.Term {
+	if t == nil || t.Op != "lit" {
+		return t
+	}
+	var found *ir.Term
+	for _, kv := range t.Args {
+		if kv.Op != "kv" || len(kv.Args) != 1 {
+			continue
+		}
+		v := kv.Args[0]
+		if v.Op == "closure" || v.Op == "fn" || v.Op == "param" {
+			if found != nil {
+				return nil
+			}
+			found = v
+		}
+	}
+	return found
+}
+
+// onlyFuncFieldOf: t reads the single function-typed field of the receiver of method fn.
+func onlyFuncFieldOf(t *ir.Term, fn *ssa.Function) bool {
+	if len(fn.Params) == 0 {
+		return false
+	}
+	var base *ir.Term
+	switch {
+	case t.Op == "field" && len(t.Args) == 1:
+		base = t.Args[0]
+	case t.Op == "load" && len(t.Args) >= 1 && t.Args[0].Op == "faddr":
+		base = t.Args[0].Args[0]
+	default:
+		return false
+	}
+	if !paramOf(base, fn, 0) {
+		return false
+	}
+	rt := fn.Params[0].Type()
+	if p, ok := rt.Underlying().(*types.Pointer); ok {
+		rt = p.Elem()
+	}
+	st, ok := rt.Underlying().(*types.Struct)
+	if !ok {
+		return false
+	}
+	n := 0
+	for i := 0; i < st.NumFields(); i++ {
+		if _, isF := st.Field(i).Type().Underlying().(*types.Signature); isF {
+			n++
+		}
+	}
+	return n == 1
+}
+
 func pureNeverFails(c *core.Ctx, pkg string) {
 	fn := c.W.Func(pkg, "Pure")
 	name := pkgShort(pkg) + ".Pure"
@@ -180,11 +236,14 @@ func pureNeverFails(c *core.Ctx, pkg string) {
 	}
 	an := c.Analyze(fn)
 	ps := an.AllPaths()
-	if len(an.Problems) > 0 || len(ps) != 1 || len(ps[0].Results) != 1 || ps[0].Results[0].Op != "closure" {
+	var clT *ir.Term
+	if len(an.Problems) == 0 && len(ps) == 1 && len(ps[0].Results) == 1 {
+		clT = wrappedFuncOf(ps[0].Results[0])
+	}
+	if clT == nil || clT.Op != "closure" {
 		c.Undecided("pure-never-fails", name, fn.Pos(), "Pure is not a single path returning the wrapped closure")
 		return
 	}
-	clT := ps[0].Results[0]
 	ian := c.AnalyzeFrom(clT.Fn, ir.NewRootState(clT.Fn, nil, clT.Args, ps[0].End), "closure-of-"+name)
 	ips := ian.AllPaths()
 	ok := len(ian.Problems) == 0 && len(ips) == 1 && len(ips[0].Results) == 2 && len(calls(ips[0])) == 1
